@@ -657,6 +657,202 @@ def _run_e2e_chunk(ck: Check, drv: LeanDriver, r, n: int):
                 ck.disagree(scenario_case(sc, rec["case"], rec["must_pass"]), ans, rec["got"], "verdict-vs-test_pass")
 
 
+# --------------------------------------------------------------------------- multi-case histories
+
+def expectation_of_written(m):
+    """the truthful expectResource for an object the mock holds after a create/patch"""
+    return drop_empty_annotations(strip_key_only(m))
+
+
+async def run_cases_observed(kind, fn_spec, base: dict, cases: list):
+    """one FunctionTest through the real prepare/run -> [(test_pass, out, eff)] for the executed cases,
+    or a string if the runner raised / results and observations do not line up"""
+    from koreo import result
+
+    fn, ft = await g.prepare_ft_async(kind, fn_spec, dict(base, testCases=copy.deepcopy(cases)))
+    if not result.is_unwrapped_ok(ft):
+        raise Infra(f"generated FunctionTest did not prepare: {ft}")
+    with g.observe() as log:
+        try:
+            res = await g.run_ft_async(ft)
+        except g.FunctionRaised:
+            raise
+        except Exception as e:
+            return f"raised:{type(e).__name__}: {e}"
+    if len(log) != len(res.test_results):
+        return f"skip: {len(res.test_results)} results for {len(log)} cases that reached the Function"
+    return [(bool(tr.test_pass), ob["out"], ob["eff"]) for tr, ob in zip(res.test_results, log)]
+
+
+def history_steps(r, fn_spec, inputs, in_sync, has_current):
+    """case modifiers whose behaviour is known in kind: W = whatever the un-modified case does (create / patch /
+    recreate / delete), W2 = the same for another object, N* = cases that do NOT touch the API"""
+    steps = [("W", {}), ("W", {})]
+    steps.append(("W2", {"inputOverrides": {"name": "other-" + inputs["name"], "payload": g.small_value(r, 1)}}))
+    for trip in r.sample(list(g.TRIPS), r.choice([1, 2, 3])):
+        steps.append((f"N-pre-{trip}", {"inputOverrides": {"trip": {trip: True}}}))
+    if in_sync is not None:
+        steps.append(("N-in-sync", {"currentResource": copy.deepcopy(in_sync)}))
+        for trip in r.sample(list(g.TRIPS), r.choice([1, 2])):
+            cur = copy.deepcopy(in_sync)
+            cur["status"] = {"trip": {trip: True}}
+            steps.append((f"N-post-{trip}", {"currentResource": cur}))
+    if has_current:
+        # overlays apply to the threaded resource (the base one here), whatever it makes the Function do
+        steps.append(("overlay-status", {"overlayResource": {"status": {"trip": {r.choice(list(g.TRIPS)): True}}}}))
+    return steps
+
+
+def gen_history(r):
+    fn_spec = g.resource_function_spec(r)
+    fn_spec["apiConfig"].pop("readonly", None)
+    mode = r.random()
+    if mode < 0.7:
+        fn_spec["apiConfig"].pop("deleteIfExists", None)
+    inputs = g.gen_inputs(r, None)
+    situation = "fresh"
+    if fn_spec["apiConfig"].get("deleteIfExists"):
+        situation = "existing-match"            # the un-modified case deletes
+    elif r.random() < 0.4:
+        situation = "existing-drift"            # the un-modified case patches / recreates / (never) does nothing
+    return {"kind": "ResourceFunction", "fn_spec": fn_spec, "inputs": inputs, "situation": situation}
+
+
+async def run_history(r, sc):
+    """-> (cases, records | str).  A create/patch/delete case followed by cases that do not touch the API,
+    asserted with what the EARLIER case sent / did; every case judged against what it did itself."""
+    kind, fn_spec, inputs = sc["kind"], sc["fn_spec"], sc["inputs"]
+    current = await realise(r, sc)
+    in_sync = await realise(r, dict(sc, situation="existing-match"))
+    if in_sync is not None:
+        in_sync.pop("status", None)
+    base = {"inputs": inputs}
+    if current is not None:
+        base["currentResource"] = current
+    sc["current"] = current
+    pool = history_steps(r, fn_spec, inputs, in_sync, current is not None)
+    seq = [pool[0]] + [r.choice(pool) for _ in range(r.choice([3, 4, 5, 6, 7]))]
+    # pass 1: what does each step do from the base state (all variant, placeholder assertion)
+    probe_cases = [dict(copy.deepcopy(frag), variant=True, label=f"p{i}", expectOutcome={"ok": {}})
+                   for i, (_, frag) in enumerate(seq)]
+    seen = await run_cases_observed(kind, fn_spec, base, probe_cases)
+    if isinstance(seen, str) or len(seen) != len(seq):
+        return probe_cases, (seen if isinstance(seen, str) else "skip: not every variant probe case ran")
+    cases = []
+    written, deleted = [], False        # what earlier cases of the FINAL list sent / did
+    for i, ((tag, frag), (_, out, eff)) in enumerate(zip(seq, seen)):
+        c = dict(copy.deepcopy(frag), label=f"h{i}:{tag}")
+        choice = r.random()
+        label = None
+        if eff["e"] != "wrote" and written and choice < 0.7:
+            c["expectResource"] = copy.deepcopy(r.choice(written))
+            label = "history:resource-sent-by-earlier-case"
+        elif eff["e"] == "wrote" and written and choice < 0.3:
+            c["expectResource"] = copy.deepcopy(r.choice(written))
+            label = "history:resource-of-earlier-case-on-a-writing-case"
+        elif eff["e"] != "deleted" and deleted and choice < 0.85:
+            c["expectDelete"] = True
+            label = "history:delete-done-by-earlier-case"
+        else:
+            own = build_assertions(r, kind, out, eff, index_free=True, current=frag.get("currentResource", current))
+            truthful = r.random() < 0.7
+            pick = r.choice([t for t in own if t[2] == truthful] or own)
+            c.update(copy.deepcopy(pick[1]))
+            label = "own:" + pick[0]
+        c["label"] += ":" + label
+        # cases that are expected to pass may be non-variant (their state is threaded on); deviating ones stay
+        # variant so that the run goes on
+        c["variant"] = True if (label.startswith("history") or r.random() < 0.7) else False
+        if not c["variant"] and not verdict_ref(c, out, eff):
+            c["variant"] = True
+        cases.append(c)
+        if eff["e"] == "wrote":
+            written.append(expectation_of_written(eff["m"]))
+        if eff["e"] == "deleted":
+            deleted = True
+    return cases, await run_cases_observed(kind, fn_spec, base, cases)
+
+
+def history_case(sc, cases, upto: int):
+    return {"type": "history", "kind": sc["kind"], "fn_spec": sc["fn_spec"], "inputs": sc["inputs"],
+            "current": sc.get("current"), "cases": cases[:upto + 1], "index": upto}
+
+
+def history_verdicts(sc, cases):
+    """re-run a stored history; -> description of the first wrong verdict or None"""
+    base = {"inputs": sc["inputs"]}
+    if sc.get("current") is not None:
+        base["currentResource"] = sc["current"]
+    try:
+        recs = ku.run(run_cases_observed(sc["kind"], sc["fn_spec"], base, cases))
+    except g.FunctionRaised:
+        return None
+    if isinstance(recs, str):
+        return None if recs.startswith("skip:") else f"the runner did not judge the cases: {recs}"
+    for c, (got, out, eff) in zip(cases, recs):
+        want = verdict_ref(c, out, eff)
+        if got != want:
+            return (f"case {c.get('label')}: " + ("the assertion holds for what this case did but it FAILED" if want
+                    else "the assertion does not hold for what THIS case did but it PASSED"))
+    return None
+
+
+def shrink_history(sc, cases, idx):
+    """drop cases before the wrongly judged one while it stays wrongly judged"""
+    target = cases[idx]
+
+    def fails(prefix):
+        return history_verdicts(sc, prefix + [target]) is not None
+
+    try:
+        if fails([]):
+            return [target]
+        keep = common.ddmin(cases[:idx], fails)
+    except Exception:
+        keep = cases[:idx]
+    return keep + [target]
+
+
+def run_histories(ck: Check, drv: LeanDriver, r, n: int):
+    pending = []
+    for _ in range(n):
+        sc = gen_history(r)
+        try:
+            cases, recs = ku.run(run_history(r, sc))
+        except g.FunctionRaised:
+            ck.count("history:skipped:function-under-test-raised")
+            continue
+        ck.count(f"history:{sc['situation']}")
+        if isinstance(recs, str):
+            ck.evaluated()
+            if recs.startswith("skip:"):
+                ck.count("history:skipped:setup-or-overlay-error")
+            else:
+                ck.violate(history_case(sc, cases, len(cases) - 1), f"the runner did not judge the cases: {recs}")
+            continue
+        for i, (c, (got, out, eff)) in enumerate(zip(cases, recs)):
+            ck.evaluated()
+            lab = c["label"].split(":", 2)[2]
+            ck.count(f"history:{lab if lab.startswith('history') else 'own'}")
+            ck.count(f"history:effect:{eff['e']}")
+            want = verdict_ref(c, out, eff)
+            ck.nontriv(hashlib.sha1(json.dumps(["h", to_wire(sc["inputs"]), i, to_wire({k: v for k, v in c.items()})],
+                                               default=str).encode()).hexdigest()[:16])
+            if got != want:
+                small = shrink_history(sc, cases, i)
+                ck.violate(history_case(sc, small, len(small) - 1),
+                           history_verdicts(sc, small) or f"case {c['label']} judged {got}, should be {want}")
+            pending.append((sc, cases, i, c, got, out, eff))
+        ck.sample({"type": "history", "labels": [c["label"] for c in cases],
+                   "pass": [x[0] for x in recs]}, limit=10)
+    if pending:
+        reqs = [{"op": "verdict", "as": g.assertion_wire(c), "out": g.out_wire(out), "eff": g.eff_wire(eff)}
+                for _, _, _, c, _, out, eff in pending]
+        for (sc, cases, i, c, got, out, eff), ans in zip(pending, drv.ask(reqs)):
+            if ans.get("pass") != got:
+                ck.disagree(history_case(sc, cases, i), ans, got, "verdict-vs-test_pass(history)")
+
+
 # --------------------------------------------------------------------------- corpus / replay
 
 def outcome_from_wire(w: dict):
@@ -712,6 +908,8 @@ def check_case(ftrun, case: dict):
         return match_oracle(ftrun, case["t"], case["a"])
     if case["type"] == "verdict":
         return check_verdict_case(ftrun, case)
+    if case["type"] == "history":
+        return history_verdicts(case, case["cases"])
     if case["type"] == "strip":
         try:
             got = ftrun._strip_last_applied_annotation(copy.deepcopy(case["m"]))
@@ -787,6 +985,7 @@ def run(tier: str) -> int:
     run_unit(ck, drv, ftrun, r, n_unit)
     run_unit_verdicts(ck, drv, ftrun, rng("c19-verdicts"), n_unit // 4)
     run_e2e(ck, drv, rng("c19-e2e"), n_e2e)
+    run_histories(ck, drv, rng("c19-history"), n_e2e // 2)
     if tier == "thorough":
         ck.leanchecker()
 
@@ -794,6 +993,7 @@ def run(tier: str) -> int:
         run_unit(ck2, drv, ftrun, rng("c19-wide"), 100000)
         run_unit_verdicts(ck2, drv, ftrun, rng("c19-wide-verdicts"), 30000)
         run_e2e(ck2, drv, rng("c19-wide-e2e"), 1500)
+        run_histories(ck2, drv, rng("c19-wide-history"), 800)
 
     ck.violations.sort(key=lambda v: len(json.dumps(v["case"], default=str)))   # smallest witnesses first
     return ck.finish(
@@ -802,7 +1002,9 @@ def run(tier: str) -> int:
              "reorder/length, set-list reorder/retype/missing/extra/type, map-list reorder/missing/extra/member/key/type) "
              "over objects with set- and map-directives; end to end: generated Value/ResourceFunctions × situations "
              "(fresh, existing matching/drifted/foreign resource, status trips, readonly, deleteIfExists, input trips) "
-             "× every assertion kind, truthful and one-step deviating; non-trivial = any non-truth pair / assertion, "
+             "× every assertion kind, truthful and one-step deviating; multi-case histories (a create/patch/delete "
+             "case followed by cases that do not touch the API — precondition trips, in-sync no-op, postcondition "
+             "trips — asserted with the EARLIER case's object / delete, variant and non-variant); non-trivial = any non-truth pair / assertion, "
              "distinct by content",
     )
 
